@@ -396,6 +396,30 @@ func init() {
 		Run:  func(t *testing.T, c *Case, keep bool) Outcome { return ExecuteInMemory(t, c, p37, keep) },
 		Rule: "(a) the generated history (transactions, write batches, and in half of the cases real compactors and drops) runs on a database opened with InMemory under the same model oracles as on disk, with the persistence-event tracker installed: any mmap/fd/dir event or any file in the working directory is a violation; (b) the first client's script is run sequentially on an on-disk and on an InMemory database and every Get/iterator/commit/batch result line must be identical. non-trivial = run in which >=1 differential result was compared",
 	})
+	// C38 no deadlock
+	p38 := profT("K-C38")
+	p38.Compaction = true
+	p38.CloseInflight = true
+	p38.NoHold = true
+	p38.MinClients, p38.MaxClients = 3, 5
+	p38.MaxOps = 30
+	p38.WCommitWith = 6
+	p38.WBatch, p38.WSub = 4, 2
+	p38.WGC, p38.WDrop, p38.WFlatten = 3, 3, 2
+	p38.WIter = 2
+	p38.Groups = [][]string{nil, {"client", "compactor", "flusher", "subcompact", "builder", "txn", "writer", "doWrites", "txncb"}, {"client", "compactor", "flusher", "txn"}}
+	register(&Scenario{Prop: "C38", Family: "K", Level: "exploration", Profile: p38, NonTrivialProbe: "l0_stall_poll",
+		Gen: func(t *rapid.T) *Case {
+			c := GenCase(t, p38)
+			// stall-prone: one or two memtables, L0 stalls one table above the compaction trigger
+			c.Cfg.NumMemtables = rapid.IntRange(1, 2).Draw(t, "num_memtables_38")
+			c.Cfg.L0Tables = rapid.IntRange(1, 2).Draw(t, "l0_tables_38")
+			c.Cfg.L0Stall = c.Cfg.L0Tables + 1
+			c.Cfg.ValueLogMaxEntries = uint32(rapid.SampledFrom([]int{5, 20, 1000}).Draw(t, "vlog_entries_38"))
+			return c
+		},
+		Rule: "3-5 clients mix commits, CommitWith, reads, iterators, WriteBatch.Flush, RunValueLogGC, DropAll, DropPrefix, Flatten and Subscribe/cancel against 2-4 real compactors with one or two memtables and an L0 stall limit one above the compaction trigger (writers stall on a full L0 / memtable queue), and Close starts while CommitWith callbacks are still in flight; oracles: deadlock detector (nothing runnable and 90 simulated seconds change nothing), step budget (every call returns within the budget once the scheduler is fair), every callback runs, and a real-time watchdog that classifies a wedged bubble whose goroutines all sit in badger code with a mutex waiter as a lock-order deadlock. non-trivial = run in which a writer actually hit the L0 stall",
+	})
 	// C04 own writes
 	p4 := profT("T-C04")
 	p4.WIter = 5
